@@ -34,6 +34,12 @@ def gate_library(rng=None):
            cirq.ParallelGate(cirq.X ** 0.3, 2), cirq.MSGate(rads=0.4), cirq.DensePauliString("XYZ", coefficient=1j), cirq.PauliStringPhasorGate(cirq.DensePauliString("XZ"), exponent_neg=0.3),
            cirq.ZPowGate(exponent=0.4, dimension=3), cirq.XPowGate(exponent=1, dimension=3), cirq.GlobalPhaseGate(1j),
            cirq.BooleanHamiltonianGate(["a", "b"], ["a ^ b"], 0.3), cirq.UniformSuperpositionGate(3, 2)]
+    # matrix gates whose analytic synthesis loses a phase that the decomposition has to put back: -1, +-i and generic phases times named matrices
+    X_, Y_, Z_, H_ = (cirq.unitary(g) for g in (cirq.X, cirq.Y, cirq.Z, cirq.H))
+    for ph in (-1, 1j, -1j, np.exp(0.3j)):
+        gl += [cirq.MatrixGate(ph * m) for m in (np.eye(2), X_, Y_, Z_, H_, np.eye(4), cirq.unitary(cirq.CZ), cirq.unitary(cirq.CNOT), cirq.unitary(cirq.SWAP), np.diag([-1, 1, 1, 1]))]
+    gl += [cirq.MatrixGate(-cirq.unitary(cirq.CCZ)), cirq.MatrixGate(np.exp(0.7j) * cirq.testing.random_unitary(8, random_state=2)), cirq.MatrixGate(-np.eye(8)),
+           cirq.MatrixGate(cirq.testing.random_unitary(2, random_state=3)), cirq.MatrixGate(cirq.testing.random_unitary(3, random_state=4), qid_shape=(3,))]
     # controlled gates whose sub-gate carries a global shift: the shift becomes a relative phase; exponent*shift at and around integers
     for cls in (cirq.XPowGate, cirq.YPowGate, cirq.ZPowGate):
         for e, s in ((1, 1), (1, -1), (2, 0.5), (2, -0.5), (3, 1 / 3), (1, 2), (0.5, 2), (1, 0.5), (0.3, -0.5), (1, 0.25)):
@@ -116,7 +122,7 @@ def standin_protocols(tier, seed):
                         # decompositions must agree exactly unless the gate documents a phase freedom; report exact mismatch only
                         if not cirq.allclose_up_to_global_phase(U, u, atol=1e-6):
                             bad(f"{label}() product differs from unitary() (beyond a global phase)", gate, qubits=list(map(repr, qs)))
-                        elif not isinstance(gate, (cirq.MatrixGate,)):
+                        else:
                             bad(f"{label}() product differs from unitary() by a global phase", gate, qubits=list(map(repr, qs)))
             # (c) kraus / mixture / superoperator
             ks = cirq.kraus(op)
